@@ -17,6 +17,8 @@ CLAIMED["C20"] = ("reference-model monitor: every kernel of utils.toeplitz / int
                   "runtime monitoring: reference-model monitor (dense definitions) over generated inputs")
 CLAIMED["C02"] = ("shadow-execution monitor: expression programs (binary + - @ * over ordered class pairs and operator/tensor pairs, scalar kinds, cat, sum/prod, expand/repeat/squeeze/unsqueeze/permute/transpose, add_diagonal/add_jitter/add_low_rank/cat_rows, 1-3 steps) run on the library and step by step on dense tensors; shape and value compared after every step; explicit not-supported errors accepted",
                   "runtime monitoring: shadow execution of expression programs against torch dense semantics")
+CLAIMED["C04"] = ("reference-model monitor with hook-observed algorithm path: op.solve / torch.linalg.solve / linear_operator.solve on PD operators (all PD classes, nestings, rhs shapes, left factors) under a settings matrix; the kernel that ran is read from cg.* / chol.* / lanczos.* hook events and decides the tolerance (direct: kappa x precision; CG: configured tolerance, only when it ended without NumericalWarning); triangular operators against solve_triangular",
+                  "runtime monitoring: reference-model monitor (backward/forward error on the dense matrix) with hook events selecting the tolerance class")
 PENDING = {}
 def main():
     hooks_commits = []
